@@ -16,6 +16,12 @@ def classify_faults(inp, obs, tags):
     return out, any(o[0] == "x" for o in ops)
 
 
+def classify_compfaults(inp, obs, tags):
+    ops = inp.split(" ")[4:]
+    out = [t for t in tags if t.startswith(("decode-alloc:", "xo:", "fault:", "faulted-"))]
+    return sorted(set(out)), any(o[0] == "x" for o in ops)
+
+
 PROP = dict(
     engines=[dict(
         name="codec", classify=classify,
@@ -26,6 +32,11 @@ PROP = dict(
         name="rawvec", classify=classify_faults,
         quick=dict(cases=1400, shards=4, profiles=["debug"], extra=["--faults"]),
         thorough=dict(cases=24000, shards=16, profiles=["debug"], extra=["--faults"]),
+    ), dict(
+        # change records of compressed vectors: the same through PcoVec / LZ4Vec / ZstdVec (its V keys carry the C17: prefix)
+        name="compvec", classify=classify_compfaults, extra=["--faults"],
+        quick=dict(cases=800, shards=4, profiles=["debug"]),
+        thorough=dict(cases=16000, shards=16, profiles=["debug"]),
     )],
     rule="inputs: 12 codec case kinds in rotation (metadata slots 60% valid / 40% boundary+malformed, encoders at and "
          "around the limits, headers, pages, numeric widths 1-16, byte arrays, regions files with mixed valid/invalid "
@@ -34,7 +45,12 @@ PROP = dict(
          "ONE fault on the record rollback would decode (deleted, truncated at every byte offset, each of the 7 length fields "
          "overwritten with 0, 1, 2^32, 2^63, 2^64-1, value+-1), then rollback / rollback_before; oracle: no panic, and the largest "
          "single allocation request during the decode (recorded by the harness's global allocator) stays within 8x the size of "
-         "change files + region + 1 MiB",
+         "change files + region + 1 MiB.  Compressed change records (engine compvec --faults): the same fault families on real "
+         "PcoVec/LZ4Vec/ZstdVec (retention 1..4; delete, truncation at every byte offset of records <= 512 bytes, the 6 u64 fields "
+         "stamp / prev_stored_len / stored_len / truncated / prev_pushed / pushed counts overwritten with 0, 1, 2^32, 2^63, 2^64-1, "
+         "value+-1), then rollback / rollback_before, then push + write; oracles decode-of-damaged-change-record-panics-comp and "
+         "decode-of-damaged-change-record-allocates-beyond-input-comp (largest single request within 8x (change files + data region "
+         "+ page-index region) + 1 MiB), every step compared with the extracted parser model",
     trusted_base=["UTF-8 validity is modelled by a hand-written DFA (Codec/Utf8.v), validated against String::from_utf8 differentially"],
     assumptions=["the in-memory size of a decoded element equals its on-disk width (true of the numeric and byte-array element types "
                  "the change-record theorems are instantiated with)"],
@@ -44,6 +60,9 @@ ENGINES = [
     dict(name="rawvec", path="harness/src/eng_rawvec.rs + ocaml/eng_rawvec.ml", serves_properties=["C03", "C04", "C16", "C17"],
          kind_free_text="fault stream on the real change directory: damaged change records decoded by the real rollback; "
                         "model-level comparison with the extracted parser, panic and allocation-size oracles"),
+    dict(name="compvec", path="harness/src/eng_compvec.rs + ocaml/eng_compvec.ml", serves_properties=["C07", "C03", "C04", "C16", "C17"],
+         kind_free_text="with --faults: damaged change records of compressed vectors decoded by the real rollback; model-level comparison "
+                        "with the extracted parser (CvModel.parse_change), panic and allocation-size oracles"),
     dict(name="codec", path="harness/src/eng_codec.rs + ocaml/eng_codec.ml", serves_properties=["C17"],
          kind_free_text="differential: real decoders/encoders vs extracted Coq codecs, plus implementation-only round-trip/validity oracles"),
 ]
@@ -64,5 +83,7 @@ TEXT = dict(
           "validated against the real decoders differentially (debug and release builds)."),
     note=("Trusted: Coq kernel; the translator gen_consts.py; extraction (ExtrOcamlBasic) and the OCaml driver; the "
           "Rust harness. The Rust code itself is modelled, not verified: the tie is the regenerated constants plus "
-          "differential agreement on generated inputs (bounded sample). Compressed vectors' change records are not modelled under C17 (their rollback is covered by C04/C16 engines only)."),
+          "differential agreement on generated inputs (bounded sample). Compressed vectors' change records (the base record without the raw tail): Props/C17compchange.v — "
+          "C17_comp_change_record_roundtrip, _truncation_rejected, _extension_rejected, _total, about CvModel.parse_change, the parser the "
+          "engine compvec --faults compares with the real rollback on damaged records."),
 )
